@@ -171,10 +171,10 @@ def mc(name, timeout=600, coverage=False, **over):
 def c01_runs(tier, seed):
     """Proxy-level part of C01: bodies delivered from the store are complete, unmixed and paired with their metadata."""
     from concurrent.futures import ThreadPoolExecutor
-    fl = [policy_families()[0], policy_families()[1], flight_families()[2]]
+    fl = [policy_families()[0], policy_families()[1], flight_families()[2], flight_families()[1], flight_families()[3]]
     n = 30 if tier == "quick" else 300
     vlib.go_build("proxydrv")
-    with ThreadPoolExecutor(max_workers=3) as ex:
+    with ThreadPoolExecutor(max_workers=5) as ex:
         results = list(ex.map(lambda t: run_family(t[1], n, seed * 1000 + 900 + t[0]), enumerate(fl)))
     out = {"violations": [], "notes": [], "coverage": {"proxy_level_families": []}, "traces": 0}
     for f, r in zip(fl, results):
